@@ -195,6 +195,7 @@ package encoding
 //@   at call Sequence).NumPeriods after inscope assert cap_hi: scale >= 1 && callresult0*resolution >= abs(resultUntil) - abs(newAsOf)
 //@   at call Sequence).NumPeriods after inscope assert cap: scale >= 1 && callresult0*resolution >= abs(resultUntil) - (abs(otherUntil) - otherPeriods*otherResolution)
 //@   at call dyn:submerge assert only_periods_inside_window: untilOf(other) - po*otherResolution > abs(asOf) && untilOf(other) - po*otherResolution <= abs(until)
+//@   at call Sequence).Truncate assert each_sequence_cut_with_its_own_width: (callarg0 == seq ==> callarg1 == ex.EncodedWidth()) && (callarg0 != seq ==> callarg1 == otherEx.EncodedWidth())
 //@   callback submerge modifies callarg0[0:w]
 //@   loop 0 invariant po_range: 0 <= po && po <= otherPeriods
 //@   loop 0 invariant hdr_result: untilOf(result) == abs(resultUntil) && len(result) >= 8
@@ -202,6 +203,7 @@ package encoding
 //@   loop 0 invariant sep: obj(result) != obj(other)
 //@   loop 0 modifies result[8:len(result)]
 //@   instance s1: resolution == 1000000000 && otherResolution == 1000000000 && ex.EncodedWidth() == 9 && otherEx.EncodedWidth() == 9
+//@   instance w18o9: resolution == 1000000000 && otherResolution == 1000000000 && ex.EncodedWidth() == 18 && otherEx.EncodedWidth() == 9
 //@   instance s3: resolution == 3000000000 && otherResolution == 1000000000 && ex.EncodedWidth() == 9 && otherEx.EncodedWidth() == 9
 //@   instance s5: resolution == 5000000000 && otherResolution == 1000000000 && ex.EncodedWidth() == 9 && otherEx.EncodedWidth() == 9
 //@   instance s60w17: resolution == 60000000000 && otherResolution == 1000000000 && ex.EncodedWidth() == 17 && otherEx.EncodedWidth() == 17
